@@ -111,13 +111,19 @@ def check(ctx):
     if toks:
         c = toks[0]
         posname = mk.args.args[3].arg if len(mk.args.args) > 3 else "pos"
-        col_defs = [n for n in ast.walk(mk) if isinstance(n, ast.Assign) and any(isinstance(t, ast.Name) and t.id == "column" for t in n.targets)]
-        col_ok = len(col_defs) == 1 and S.unparse(col_defs[0].value) == f"{posname} - self._line_start + 1"
+        from .c09 import _single_def
+        colarg = c.args[3] if len(c.args) > 3 else next((k.value for k in c.keywords if k.arg == "column"), None)
+        colexpr = colarg
+        if isinstance(colarg, ast.Name):
+            d = _single_def(mk, colarg.id)
+            colexpr = d if isinstance(d, ast.AST) else None
+        col_defs = [colexpr] if colexpr is not None else []
+        col_ok = colexpr is not None and S.unparse(colexpr) == f"{posname} - self._line_start + 1"
         args = [S.unparse(a) for a in c.args] + [f"{k.arg}={S.unparse(k.value)}" for k in c.keywords]
-        ok = col_ok and len(args) >= 5 and args[2] == "self._lineno" and args[3] == "column" and args[4] in ("self._filename", "filename=self._filename")
-        ctx.oblige("R-C11.4", "token position = (current line, start offset - line start + 1, current file)", ok, sample={"rule": "R-C11.4", "Token args": args, "column": S.unparse(col_defs[0].value) if col_defs else None})
+        ok = col_ok and len(args) >= 5 and args[2] == "self._lineno" and args[4] in ("self._filename", "filename=self._filename")
+        ctx.oblige("R-C11.4", "token position = (current line, start offset - line start + 1, current file)", ok, sample={"rule": "R-C11.4", "Token args": args, "column": S.unparse(col_defs[0]) if col_defs else None})
         if not ok:
-            ctx.violation("R-C11.4", "token-position", f"_make_token must stamp Token(type, value, self._lineno, pos - self._line_start + 1, self._filename); found args {args}, column = {S.unparse(col_defs[0].value) if col_defs else None}", file=lx.rel, function="CLexer._make_token")
+            ctx.violation("R-C11.4", "token-position", f"_make_token must stamp Token(type, value, self._lineno, pos - self._line_start + 1, self._filename); found args {args}, column = {S.unparse(col_defs[0]) if col_defs else None}", file=lx.rel, function="CLexer._make_token")
     # fields of Token are never re-assigned in the package
     for mod in S.all_modules():
         for n in ast.walk(mod.tree):
@@ -158,7 +164,13 @@ def check(ctx):
                        label_filter=lambda lab: lab == "call:_parse_error")
     mt = lx.method("CLexer", "_match_token")
     ill = [c for c in ast.walk(mt) if isinstance(c, ast.Call) and getattr(c.func, "attr", "") == "_error" and c.args and "Illegal character" in S.unparse(c.args[0])]
-    ok = len(ill) == 1 and len(ill[0].args) == 2 and S.unparse(ill[0].args[1]) == "pos"
+    ok = False
+    if len(ill) == 1 and len(ill[0].args) == 2:
+        from .c09 import _single_def as _sd
+        where = ill[0].args[1]
+        idx = [x.slice for x in ast.walk(ill[0].args[0]) if isinstance(x, ast.Subscript)]     # the character the message shows: text[<offset>]
+        origin = _sd(mt, where.id) if isinstance(where, ast.Name) else where
+        ok = bool(idx) and all(S.unparse(i) == S.unparse(where) for i in idx) and isinstance(origin, ast.AST) and S.unparse(origin) == "self._pos"
     ctx.oblige("R-C11.6", "illegal character error is located at the offending offset", ok)
     if not ok:
         ctx.violation("R-C11.6", "illegal-char-pos", "the 'Illegal character' error must be reported at the offset of that character", file=lx.rel, function="CLexer._match_token")
